@@ -31,16 +31,18 @@ def atom(t):
     return ("opaque", render(t))
 
 
-def paths(body, sym, max_paths=4000):
+def paths(body, sym, max_paths=4000, trails=None):
     """All acyclic entry→return paths: [(conds, value)] with conds = [(atom, truth)], value = atom of the returned
-    bool (or the rendered term for non-bool results)."""
+    bool (or the rendered term for non-bool results).  With `trails` (a list), the block sequence of each path is
+    appended to it in step with the result."""
     out = []
-    stack = [(0, [], None, frozenset())]
+    stack = [(0, [], None, frozenset(), ())]
     while stack:
-        bb, conds, ret, seen = stack.pop()
+        bb, conds, ret, seen, trail = stack.pop()
         if bb in seen:
             raise NotComparisonOnly("loop in " + body.name)
         seen = seen | {bb}
+        trail = trail + (bb,)
         blk = body.blocks[bb]
         for st in blk["stmts"]:
             if st["s"] == "assign" and st["pl"]["l"] == 0 and not st["pl"]["p"]:
@@ -49,15 +51,17 @@ def paths(body, sym, max_paths=4000):
         k = t["t"]
         if k == "return":
             out.append((conds, ret))
+            if trails is not None:
+                trails.append(trail)
             if len(out) > max_paths:
                 raise NotComparisonOnly("too many paths")
         elif k in ("goto", "drop", "assert"):
-            stack.append((t["target"], conds, ret, seen))
+            stack.append((t["target"], conds, ret, seen, trail))
         elif k == "call":
             if t["dest"]["l"] == 0 and not t["dest"]["p"]:
                 ret = strip_deep(sym.call(t, bb))
             if t.get("target") is not None:
-                stack.append((t["target"], conds, ret, seen))
+                stack.append((t["target"], conds, ret, seen, trail))
         elif k == "switch":
             d = strip_deep(sym.operand(t["discr"]))
             if t.get("dty") == "bool":
@@ -70,7 +74,7 @@ def paths(body, sym, max_paths=4000):
                     if f_t is None:
                         raise NotComparisonOnly("odd bool switch")
                     for extra, truth in exp:
-                        stack.append((t["otherwise"] if truth else f_t, conds + extra, ret, seen))
+                        stack.append((t["otherwise"] if truth else f_t, conds + extra, ret, seen, trail))
                     continue
                 a = atom(d)
                 f_t = None
@@ -79,12 +83,12 @@ def paths(body, sym, max_paths=4000):
                         f_t = tb
                 if f_t is None:
                     raise NotComparisonOnly("odd bool switch")
-                stack.append((f_t, conds + [(a, False)], ret, seen))
-                stack.append((t["otherwise"], conds + [(a, True)], ret, seen))
+                stack.append((f_t, conds + [(a, False)], ret, seen, trail))
+                stack.append((t["otherwise"], conds + [(a, True)], ret, seen, trail))
             else:
                 for v, tb in t["targets"]:
-                    stack.append((tb, conds + [(("switch", render(d), v), True)], ret, seen))
-                stack.append((t["otherwise"], conds + [(("switch", render(d), None), True)], ret, seen))
+                    stack.append((tb, conds + [(("switch", render(d), v), True)], ret, seen, trail))
+                stack.append((t["otherwise"], conds + [(("switch", render(d), None), True)], ret, seen, trail))
         elif k in ("unreachable", "resume", "terminate"):
             pass
         else:
